@@ -220,13 +220,16 @@ func (c *Ctx) poolShutdown() {
 		if ls.HoldsClass("loadbalancer.WebSocketPool.mu") != 'W' || ls.HoldsClass(poolT+"mu") != 'W' {
 			bad = append(bad, "idle connections are closed without holding both WebSocketPool.mu and connPool.mu in write mode: "+ls.String())
 		}
-		// no early exit from the loops: every Return is outside the loop bodies
-		hdr := loopHeader(closeAt.Block())
-		instrsOf(fn, func(in ssa.Instruction) {
-			if r, ok := in.(*ssa.Return); ok && hdr != nil && hdr.Dominates(r.Block()) && reaches(r.Block(), hdr, map[*ssa.BasicBlock]bool{}) {
-				bad = append(bad, p.InstrPos(r)+": return from inside the closing loop")
+		// no early exit from the loops over pools and idle connections: they end only at their headers
+		loops := enclosingLoops(closeAt.Block())
+		if len(loops) < 2 {
+			bad = append(bad, "the close is not nested in a loop over the pools and a loop over each pool's idle connections")
+		}
+		for _, h := range loops {
+			for _, e := range loopEarlyExits(h) {
+				bad = append(bad, p.InstrPos(e.Instrs[len(e.Instrs)-1])+": the closing loop can be left before every pool and idle connection was visited")
 			}
-		})
+		}
 	}
 	replaced := false
 	instrsOf(fn, func(in ssa.Instruction) {
@@ -342,7 +345,9 @@ func checkC19(c *Ctx) {
 	c.probeContext()
 	c.waitGroupJoinable()
 	c.poolShutdown()
-	lockDiscipline(c, func(k string) bool { return k == "loadbalancer.LoadBalancer.ctx" || k == "loadbalancer.LoadBalancer.cancel" })
+	lockDiscipline(c, func(k string) bool {
+		return k == "loadbalancer.LoadBalancer.ctx" || k == "loadbalancer.LoadBalancer.cancel"
+	})
 }
 
 func (c *Ctx) probeContext() {
@@ -693,6 +698,30 @@ func (c *Ctx) nonZeroDuration(fn *ssa.Function, v ssa.Value) string {
 			return ""
 		}
 		return "constant zero"
+	}
+	if ex, ok := v.(*ssa.Extract); ok {
+		if call, ok := ex.Tuple.(*ssa.Call); ok {
+			if h := StaticFn(call); h != nil && p.IsHelios(h) && h.Blocks != nil {
+				why := ""
+				instrsOf(h, func(in ssa.Instruction) {
+					if r, ok := in.(*ssa.Return); ok && ex.Index < len(r.Results) && why == "" {
+						why = c.nonZeroDuration(h, r.Results[ex.Index])
+					}
+				})
+				return why
+			}
+		}
+	}
+	if call, ok := v.(*ssa.Call); ok {
+		if h := StaticFn(call); h != nil && p.IsHelios(h) && h.Blocks != nil && h.Signature.Results().Len() == 1 {
+			why := ""
+			instrsOf(h, func(in ssa.Instruction) {
+				if r, ok := in.(*ssa.Return); ok && why == "" {
+					why = c.nonZeroDuration(h, r.Results[0])
+				}
+			})
+			return why
+		}
 	}
 	d := p.Desc(v, nil)
 	if d == "fld:loadbalancer.healthChecker.activeTimeout" {
